@@ -97,6 +97,14 @@ claimed["C04"] = dict(
          "without effect.",
     design="5 C04", technique=T)
 
+claimed["C14"] = dict(
+    text="Bounded symbolic execution of the real recorder (response_writer.go), io.CopyBuffer, the Context helpers and "
+         "net/http.Redirect from go/ssa, reached through ServeHTTP, over every call sequence up to k with solver-chosen "
+         "status codes, accepted byte counts and failure points, against ghost counters kept inside the underlying writer "
+         "stub: Status, Size, Written, single final status, no header after body, byte order, capability delegation / "
+         "ErrNotSupported, helper outputs, Redirect code range, and A/B equality across capability variants.",
+    design="5 C14", technique="bounded symbolic execution of go/ssa + SMT (z3, QF_BV) against ghost-state oracle in the environment stub; A/B across variants; native replay")
+
 reasons = {}
 
 ids = [json.loads(l)["id"] for l in open("/verif/properties.jsonl")]
